@@ -160,9 +160,11 @@ struct Spec {
 	int nbones = 0;
 	bool eye = false;
 	bool raw_vert_weights = false; // hand every influence to SetShapeVertWeights instead of the four strongest
+	int uvsets = 1;				   // legacy geometry data before stream 34 may carry several UV sets (count in the data flags)
 	int partflags = 0;			   // skin partitions: 0 as rebuilt (weights and bone indices), 1 bone indices only, 2 weights only (the format keeps both flags independent)
 	std::string label() const {
-		return std::string(kind_id(kind)) + "/" + game_name(game) + "/" + (skinned ? "skinned" : "static") + (eye ? "+eye" : "") + (partflags == 1 ? "+partition-boneindices-only" : partflags == 2 ? "+partition-weights-only" : "");
+		return std::string(kind_id(kind)) + "/" + game_name(game) + "/" + (skinned ? "skinned" : "static") + (eye ? "+eye" : "") + (partflags == 1 ? "+partition-boneindices-only" : partflags == 2 ? "+partition-weights-only" : "")
+			   + (uvsets > 1 ? "+uvsets" + std::to_string(uvsets) : "");
 	}
 };
 
@@ -347,6 +349,16 @@ inline NiShape* build_shape(NifFile& nif, const Spec& sp, const Mesh& m, const W
 	nif.SetTangentsForShape(shape, m.tan);
 	nif.SetBitangentsForShape(shape, m.bit);
 	if (sp.eye) nif.SetEyeDataForShape(shape, m.eye);
+	if (sp.uvsets > 1)
+		if (auto gd = shape->GetGeomData())
+			if (ver.Stream() < 34 && !gd->uvSets.empty()) {
+				gd->uvSets.resize((size_t) sp.uvsets);
+				for (int u = 1; u < sp.uvsets; u++) {
+					gd->uvSets[u] = gd->uvSets[0];
+					for (size_t i = 0; i < gd->uvSets[u].size(); i++) { gd->uvSets[u][i].u += 0.5f * u + 0.03125f * i; gd->uvSets[u][i].v -= 0.25f * u; }
+				}
+				gd->dataFlags = (uint16_t) ((gd->dataFlags & ~0x3F) | sp.uvsets);
+			}
 
 	if (sp.kind == K_BSSUB_SEG && sp.game == G_FO4) {
 		// two segments, the first with two sub-segments, the second with one; triangles dealt round robin
